@@ -80,6 +80,7 @@ type sCase struct {
 	Batch    []sPod              `json:"batch,omitempty"`
 	Levels   []map[string]string `json:"pool_alone_outcome_per_relaxation_level"`
 	Observed map[string]string   `json:"observed_per_worker_count"`
+	Remain   map[string]int64    `json:"true_remaining_cpu_milli_when_placed,omitempty"`
 }
 
 // errBranch names the branch of addToNewNodeClaim / CanAdd that produced the error (distribution table only).
@@ -97,13 +98,16 @@ func errBranch(msg string) string {
 }
 
 type world struct {
-	c      *kit.Ctx
-	ctx    context.Context
-	cl     client.Client
-	cp     *fake.CloudProvider
-	prov   *provisioning.Provisioner
-	pools  []sPool
-	strict bool
+	limitsMode bool // batches with NodePool cpu limits: the witness of a pod runs under the limit that truly remains
+	c          *kit.Ctx
+	ctx        context.Context
+	cl         client.Client
+	cp         *fake.CloudProvider
+	prov       *provisioning.Provisioner
+	pools      []sPool
+	strict     bool
+	// remaining[i]: cpu limit (milli) that truly remains per limited pool when pod i was placed (limitsMode only)
+	remaining []map[string]int64
 }
 
 func (w *world) opts(workers int) []sched.Options {
@@ -550,6 +554,9 @@ func runSolve(c *kit.Ctx, r *kit.Rand, w *world, pods []*corev1.Pod, jpods []sPo
 		}
 		perWorker[k] = observe(results, pods)
 		if k == 0 {
+			if w.limitsMode {
+				w.trueRemaining(results, pods)
+			}
 			w.pipeline(c, results, kind, maxTypes)
 		}
 	}
@@ -558,7 +565,12 @@ func runSolve(c *kit.Ctx, r *kit.Rand, w *world, pods []*corev1.Pod, jpods []sPo
 			c.Count("solve:" + kind + ":joined-an-open-claim(not-checked)")
 			continue
 		}
+		restore := func() {}
+		if w.limitsMode {
+			restore = w.setLimits(w.remaining[i])
+		}
 		glevels, jlevels, anyOK := w.witness(pod)
+		restore()
 		var gobs []string
 		jobs := map[string]string{}
 		for k, n := range workerCounts {
@@ -586,6 +598,9 @@ func runSolve(c *kit.Ctx, r *kit.Rand, w *world, pods []*corev1.Pod, jpods []sPo
 		if len(pods) > 1 {
 			sc.Batch = jpods
 		}
+		if w.limitsMode {
+			sc.Remain = w.remaining[i]
+		}
 		c.AddCase(fmt.Sprintf("CaseSolve %s %s %s", w.gPools(), kit.GList(glevels), kit.GList(gobs)), sc, key)
 		if !placed {
 			c.Count(bucketKey)
@@ -604,6 +619,159 @@ func runSolve(c *kit.Ctx, r *kit.Rand, w *world, pods []*corev1.Pod, jpods []sPo
 		c.Count(bucketKey)
 		c.AddCase(fmt.Sprintf("CaseStrict %s %s %s", w.gPools(), kit.GList(glevels), kit.GList(gobs)), sc, "")
 	}
+}
+
+// trueRemaining recomputes, from the Results alone, the cpu limit that truly remains in every limited NodePool at the
+// moment each pod of the batch was placed: the pool's spec.limits minus, for every NodeClaim of that pool created
+// EARLIER in the pass, the largest cpu capacity among the instance types that NodeClaim can still launch. For a pod
+// that stayed unschedulable the limit remaining after ALL claims is used (the least it ever saw).
+func (w *world) trueRemaining(results sched.Results, pods []*corev1.Pod) {
+	claims := append([]*sched.NodeClaim(nil), results.NewNodeClaims...)
+	sort.Slice(claims, func(i, j int) bool { return claims[i].VerifC19Hostname() < claims[j].VerifC19Hostname() })
+	rem := map[string]int64{}
+	for _, p := range w.pools {
+		if p.LimitCPU != "" {
+			q := qty(p.LimitCPU)
+			rem[p.Name] = q.MilliValue()
+		}
+	}
+	snapshot := func() map[string]int64 {
+		m := map[string]int64{}
+		for k, v := range rem {
+			m[k] = v
+		}
+		return m
+	}
+	w.remaining = make([]map[string]int64, len(pods))
+	for _, nc := range claims {
+		if len(nc.Pods) > 0 {
+			if i := podByUID(pods, nc.Pods[0].UID); i >= 0 {
+				w.remaining[i] = snapshot()
+			}
+		}
+		if _, limited := rem[nc.NodePoolName]; limited {
+			var maxCPU int64
+			for _, it := range nc.InstanceTypeOptions {
+				if c := it.Capacity.Cpu().MilliValue(); c > maxCPU {
+					maxCPU = c
+				}
+			}
+			rem[nc.NodePoolName] -= maxCPU
+		}
+	}
+	for i := range pods {
+		if w.remaining[i] == nil {
+			w.remaining[i] = snapshot()
+		}
+	}
+}
+
+// setLimits writes the given remaining cpu limits into the NodePool objects (the witness schedulers are built from the
+// API like the real one) and returns the function that restores the original limits.
+func (w *world) setLimits(rem map[string]int64) func() {
+	old := map[string]v1.Limits{}
+	for name, milli := range rem {
+		np := &v1.NodePool{}
+		if err := w.cl.Get(w.ctx, client.ObjectKey{Name: name}, np); err != nil {
+			panic(err)
+		}
+		old[name] = np.Spec.Limits
+		if milli < 0 {
+			milli = 0
+		}
+		np.Spec.Limits = v1.Limits{corev1.ResourceCPU: *resource.NewMilliQuantity(milli, resource.DecimalSI)}
+		if err := w.cl.Update(w.ctx, np); err != nil {
+			panic(err)
+		}
+	}
+	return func() {
+		for name, l := range old {
+			np := &v1.NodePool{}
+			if err := w.cl.Get(w.ctx, client.ObjectKey{Name: name}, np); err != nil {
+				panic(err)
+			}
+			np.Spec.Limits = l
+			if err := w.cl.Update(w.ctx, np); err != nil {
+				panic(err)
+			}
+		}
+	}
+}
+
+// archType is one on-demand instance type of the given architecture offered in every zone.
+func archType(name, arch string, cpu int64, price float64) *cloudprovider.InstanceType {
+	var ofs []cloudprovider.Offering
+	for _, z := range zones {
+		ofs = append(ofs, cloudprovider.Offering{Available: true, Price: price, Requirements: scheduling.NewLabelRequirements(map[string]string{
+			v1.CapacityTypeLabelKey: v1.CapacityTypeOnDemand, corev1.LabelTopologyZone: z})})
+	}
+	return fake.NewInstanceType(name, fake.WithArchitecture(arch), fake.WithOfferings(ofs...),
+		fake.WithResources(corev1.ResourceList{corev1.ResourceCPU: *resource.NewQuantity(cpu, resource.DecimalSI), corev1.ResourceMemory: qty("256Gi"), corev1.ResourcePods: qty("20")}))
+}
+
+// limitsBatch: weighted NodePools WITH cpu limits, a catalogue of small arm64 and large amd64 types, and a batch of
+// pods most of which need a NodeClaim of their own and whose architecture selector excludes the pool's largest types.
+// Limits sit at the boundaries k*small, large, large+small-1, ... so that "debit the largest type the claim can still
+// launch" and "debit the largest type of the pool" part ways.
+func limitsBatch(c *kit.Ctx, r *kit.Rand, fixed bool) {
+	small, large := kit.Pick(r, []int64{2, 4}), kit.Pick(r, []int64{16, 32})
+	nPools := r.Range(2, 3)
+	if fixed { // the shape of the seeded demo: high (weight 50, cpu limit 35), low (weight 1), 4-cpu arm64 + 32-cpu amd64
+		small, large, nPools = 4, 32, 2
+	}
+	limitChoices := []int64{small, 2 * small, 3 * small, 3*small - 1, large, large + small - 1, large + small, large + 2*small, 2 * large, 2*large + small - 1}
+	perm := shuffled(r, len(poolNames))
+	weights := []int32{50, 10, 1}
+	var specs []poolSpec
+	for i := 0; i < nPools; i++ {
+		sp := sPool{Name: poolNames[perm[i]], Weight: lo.ToPtr(weights[i]), State: "ready"}
+		if !fixed && r.Chance(1, 5) {
+			sp.Weight = lo.ToPtr(weights[r.Intn(len(weights))]) // ties and inversions
+		}
+		if i < nPools-1 && (fixed || r.Chance(4, 5)) {
+			sp.LimitCPU = fmt.Sprint(kit.Pick(r, limitChoices))
+			if fixed {
+				sp.LimitCPU = "35"
+			}
+		}
+		its := []*cloudprovider.InstanceType{
+			archType(fmt.Sprintf("%s-arm-c%d", sp.Name, small), "arm64", small, float64(small)),
+			archType(fmt.Sprintf("%s-amd-c%d", sp.Name, large), "amd64", large, float64(large)),
+		}
+		if !fixed && r.Chance(1, 3) {
+			its = append(its, archType(fmt.Sprintf("%s-arm-c%d", sp.Name, 2*small), "arm64", 2*small, float64(2*small)))
+		}
+		specs = append(specs, poolSpec{sp, its})
+	}
+	w := buildWorld(specs, true)
+	w.limitsMode = true
+	var pods []*corev1.Pod
+	var sps []sPod
+	for k, n := 0, r.Range(2, 5); k < n; k++ {
+		arch := "arm64"
+		cpu := fmt.Sprintf("%dm", small*1000-1000)
+		if !fixed {
+			// every pod pins its architecture, so a NodeClaim's largest launchable type is fixed by its first pod and
+			// the debit recomputed from the final Results equals the one due when the claim was opened
+			switch r.Intn(8) {
+			case 0:
+				arch, cpu = "amd64", fmt.Sprintf("%dm", large*1000-1000)
+			case 1:
+				cpu = "500m"
+			}
+		}
+		sp := sPod{Name: fmt.Sprintf("p%d", k), CPU: cpu}
+		opts := test.PodOptions{ObjectMeta: metav1.ObjectMeta{Name: sp.Name, UID: types.UID("uid-" + sp.Name)},
+			ResourceRequirements: corev1.ResourceRequirements{Requests: corev1.ResourceList{corev1.ResourceCPU: qty(cpu)}}}
+		if arch != "" {
+			sp.NodeSelector = map[string]string{corev1.LabelArchStable: arch}
+			opts.NodeSelector = sp.NodeSelector
+		}
+		pod := test.UnschedulablePod(opts)
+		kit.Apply(w.ctx, w.cl, pod)
+		pods, sps = append(pods, pod), append(sps, sp)
+	}
+	runSolve(c, r, w, pods, sps, lo.Ternary(fixed, "corpus-limits", "batch-limits"), r.Range(1, 4))
 }
 
 // kfFor decides whether the strict-reading case of a placed pod is an instance of the known finding.
@@ -693,13 +861,14 @@ func (w *world) pipeline(c *kit.Ctx, results sched.Results, kind string, maxType
 }
 
 func partSolve(c *kit.Ctx) {
-	nSingle, nBatch := 220, 60
+	nSingle, nBatch := 200, 48
 	if c.Thorough() {
 		nSingle, nBatch = 1100, 300
 	}
 	// corpus: the smallest input on which the strict reading fails (kept first, see Properties/C19.v)
 	corpusRelax(c)
 	corpusReady(c)
+	limitsBatch(c, c.Rand.Fork(), true)
 	for i := 0; i < nSingle; i++ {
 		r := c.Rand.Fork()
 		w := newWorld(r, true)
@@ -718,6 +887,9 @@ func partSolve(c *kit.Ctx) {
 				runSolve(c, r, w, []*corev1.Pod{pod}, []sPod{sp}, "second-pass", r.Range(1, 3))
 			}
 		}
+	}
+	for i := 0; i < nBatch*2/3; i++ {
+		limitsBatch(c, c.Rand.Fork(), false)
 	}
 	for i := 0; i < nBatch; i++ {
 		r := c.Rand.Fork()
